@@ -9,17 +9,21 @@ import (
 
 // probe is one simrt.Access call to be placed before a statement.
 type probe struct {
-	text   string     // original selector text, e.g. "t.data"
+	text   string     // original text, e.g. "t.data", "keyScratch", "language.TRUE"
 	addr   ast.Expr   // fresh copy of the selector with embedded fields spelled out
 	guards []ast.Expr // `p != nil` for every pointer the selector dereferences
-	owner  string     // named struct type declaring the field
+	owner  string     // named struct type declaring the field, or pkgVarOwner
 	write  bool
 	pos    token.Pos
 }
 
+// pkgVarOwner is the "type" of access sites for package-level variables.
+const pkgVarOwner = "<pkgvar>"
+
 // probes implements rule E for statement s (which sits in a statement list):
-// one simrt.Access per distinct shared-field selector in the part of s that is
-// evaluated before any nested statement list.
+// one simrt.Access per distinct shared-field selector and per distinct library
+// package-level variable in the part of s that is evaluated before any nested
+// statement list.
 func (r *rewriter) probes(s ast.Stmt) []ast.Stmt {
 	inner := s
 	for {
@@ -29,7 +33,7 @@ func (r *rewriter) probes(s ast.Stmt) []ast.Stmt {
 		}
 		inner = l.Stmt
 	}
-	writes := map[*ast.SelectorExpr]bool{}
+	writes := map[ast.Expr]bool{}
 	var hdr []ast.Node
 	add := func(ns ...ast.Node) {
 		for _, n := range ns {
@@ -62,7 +66,7 @@ func (r *rewriter) probes(s ast.Stmt) []ast.Stmt {
 		add(inner)
 	}
 
-	var sels []*ast.SelectorExpr
+	var cands []ast.Expr // field selectors, qualified identifiers, package-level variable identifiers
 	for _, h := range hdr {
 		if h == nil {
 			continue
@@ -72,7 +76,14 @@ func (r *rewriter) probes(s ast.Stmt) []ast.Stmt {
 			case *ast.FuncLit:
 				return false // its statements are handled in their own lists
 			case *ast.SelectorExpr:
-				sels = append(sels, n)
+				cands = append(cands, n)
+				if r.info.Selections[n] == nil {
+					return false // qualified identifier: nothing below it
+				}
+			case *ast.Ident:
+				if r.pkgVar(n) != nil {
+					cands = append(cands, n)
+				}
 			case *ast.AssignStmt:
 				if n.Tok != token.DEFINE {
 					for _, l := range n.Lhs {
@@ -100,18 +111,35 @@ func (r *rewriter) probes(s ast.Stmt) []ast.Stmt {
 							}
 						}
 					}
+					// buf.Reset(), buf.WriteString(..): a pointer-receiver method of a
+					// non-library type called on a package-level variable mutates it.
+					if s := r.info.Selections[fun]; s != nil && s.Kind() == types.MethodVal {
+						recv := unparen(fun.X)
+						_, ptrRecv := s.Obj().Type().(*types.Signature).Recv().Type().(*types.Pointer)
+						if v := r.pkgVar(recv); v != nil && ptrRecv && !r.libType(v.Type()) {
+							writes[recv] = true
+						}
+					}
 				}
 			}
 			return true
 		})
 	}
 	// Inner selectors end first, which is also their evaluation order.
-	sort.SliceStable(sels, func(i, j int) bool { return sels[i].End() < sels[j].End() })
+	sort.SliceStable(cands, func(i, j int) bool { return cands[i].End() < cands[j].End() })
 
 	var found []*probe
 	byText := map[string]*probe{}
-	for _, sel := range sels {
-		p, skip := r.analyse(sel, s.Pos())
+	for _, c := range cands {
+		var p *probe
+		var skip string
+		if r.pkgVar(c) != nil { // not subject to -access-types; &X never faults, so no guards
+			p = &probe{text: types.ExprString(c), addr: copyChain(c), owner: pkgVarOwner, pos: c.Pos()}
+		} else if sel, ok := c.(*ast.SelectorExpr); ok {
+			p, skip = r.analyse(sel, s.Pos())
+		} else {
+			continue
+		}
 		switch {
 		case skip == "out-of-scope":
 		case skip == "filtered":
@@ -120,7 +148,7 @@ func (r *rewriter) probes(s ast.Stmt) []ast.Stmt {
 			r.tab.SkippedAccess++
 			r.tab.SkippedReasons[skip]++
 		default:
-			p.write = writes[sel]
+			p.write = writes[c]
 			if q := byText[p.text]; q != nil {
 				q.write = q.write || p.write
 			} else {
@@ -152,8 +180,12 @@ func (r *rewriter) probes(s ast.Stmt) []ast.Stmt {
 
 // markWrite marks the selector at the root of e (through parentheses, index
 // and slice expressions) as written, and with it every enclosing struct value
-// it is a part of (writing x.f.g also modifies the struct x.f).
-func (r *rewriter) markWrite(writes map[*ast.SelectorExpr]bool, e ast.Expr) {
+// it is a part of (writing x.f.g also modifies the struct x.f). A library
+// package-level variable at the root of e is marked as written as well.
+func (r *rewriter) markWrite(writes map[ast.Expr]bool, e ast.Expr) {
+	if v := r.pkgVarRoot(e); v != nil {
+		writes[v] = true
+	}
 	for {
 		switch x := e.(type) {
 		case *ast.ParenExpr:
@@ -181,6 +213,89 @@ func (r *rewriter) markWrite(writes map[*ast.SelectorExpr]bool, e ast.Expr) {
 		}
 		return
 	}
+}
+
+// pkgVar returns the variable if e (an identifier or a qualified identifier
+// pkg.Var) denotes a package-level variable of a library package that is worth
+// probing: not a sync.* value, not an error sentinel, not a *regexp.Regexp.
+func (r *rewriter) pkgVar(e ast.Expr) *types.Var {
+	var id *ast.Ident
+	switch e := e.(type) {
+	case *ast.Ident:
+		id = e
+	case *ast.SelectorExpr:
+		if r.info.Selections[e] != nil {
+			return nil
+		}
+		id = e.Sel
+	default:
+		return nil
+	}
+	v, ok := r.info.Uses[id].(*types.Var)
+	if !ok || v.IsField() || v.Pkg() == nil || !r.lib[v.Pkg().Path()] || v.Parent() != v.Pkg().Scope() {
+		return nil
+	}
+	t := v.Type()
+	if types.Identical(t, types.Universe.Lookup("error").Type()) {
+		return nil
+	}
+	if p, ok := t.Underlying().(*types.Pointer); ok {
+		t = p.Elem()
+	}
+	if n, ok := types.Unalias(t).(*types.Named); ok && n.Obj().Pkg() != nil {
+		switch path := n.Obj().Pkg().Path(); {
+		case path == "sync", path == "sync/atomic":
+			return nil
+		case path == "regexp" && n.Obj().Name() == "Regexp":
+			return nil
+		case path == "strings" && n.Obj().Name() == "Replacer":
+			// documented as safe for concurrent use by multiple goroutines
+			return nil
+		}
+	}
+	return v
+}
+
+// pkgVarRoot returns the identifier (or qualified identifier) of the library
+// package-level variable that e is rooted at through index, slice, field
+// selector, dereference, parenthesis and conversion expressions, or nil.
+func (r *rewriter) pkgVarRoot(e ast.Expr) ast.Expr {
+	for {
+		if r.pkgVar(e) != nil {
+			return e
+		}
+		switch x := e.(type) {
+		case *ast.ParenExpr:
+			e = x.X
+		case *ast.IndexExpr:
+			e = x.X
+		case *ast.SliceExpr:
+			e = x.X
+		case *ast.StarExpr:
+			e = x.X
+		case *ast.SelectorExpr:
+			if s := r.info.Selections[x]; s == nil || s.Kind() != types.FieldVal {
+				return nil
+			}
+			e = x.X
+		case *ast.CallExpr:
+			if tv, ok := r.info.Types[x.Fun]; !ok || !tv.IsType() || len(x.Args) != 1 {
+				return nil
+			}
+			e = x.Args[0]
+		default:
+			return nil
+		}
+	}
+}
+
+// libType reports whether t (or *t) is a named type declared in a library package.
+func (r *rewriter) libType(t types.Type) bool {
+	if p, ok := t.Underlying().(*types.Pointer); ok {
+		t = p.Elem()
+	}
+	n, ok := types.Unalias(t).(*types.Named)
+	return ok && n.Obj().Pkg() != nil && r.lib[n.Obj().Pkg().Path()]
 }
 
 // analyse decides whether selector sel (inside the statement starting at
